@@ -16,11 +16,14 @@
 using namespace photon;
 
 static const uint64_t TMO = 40;
+static const uint64_t FOREVER = 1000 * 1000;      // stand-in for "no timeout" in generated programs (virtual time)
+static void judge_quiescence(const char* dump);
 struct Op { char op; int th; int val; bool done = false, ok = false; uint64_t t0 = 0, t1 = 0; int err = 0; };
 struct St {
     mvprog::Prog prog; channel<int>* ch = nullptr; int cap = 0;
     std::vector<Op*> ops; std::vector<int> got[16]; std::string log;
     std::atomic<int> close_issued{0};
+    bool gen = false; int nwaits = 0; uint64_t judged_jump = ~0ull;
     int blocked_s = 0, blocked_r = 0;       // harness-level: threads currently inside a blocking op (plain ints: only for the deadlock judgement)
 };
 static St* G;
@@ -29,16 +32,31 @@ static void body(mvprog::PT& p) {
     int me = p.idx, seq = 0;
     for (char c : p.ops) {
         if (c == 'y') { thread_yield(); continue; }
+        if (c == 'p') { int n = pmc_choose(3, PMC_PROG, 0, "pad yields"); for (int k = 0; k < n; k++) thread_yield(); continue; }
+        if (c == 'q') { if (pmc_choose(2, PMC_PROG, 0, "pad yield")) thread_yield(); continue; }
         if (c == 'c') { G->close_issued = 1; G->ch->close(); G->log += char('a' + me); G->log += 'c'; continue; }
         Op* o = new Op; o->op = c; o->th = me; o->val = -1; G->ops.push_back(o);
         o->t0 = mv_now();
         if (c == 's' || c == 't' || c == 'x') {
             o->val = me * 100 + seq++;
+            uint64_t forever = FOREVER + 10000ull * (G->nwaits++ % 50);
+            if (c == 's' && G->gen) {
+                // generated program: "forever" is a 1 s stand-in; when it expires nobody could run: judge the quiescent state, then go on
+                G->blocked_s++; o->ok = G->ch->send(o->val, Timeout(forever));
+                if (!o->ok && errno == ETIMEDOUT && mv_now() >= o->t0 + forever) { if (G->judged_jump != mv_time_jumps()) { G->judged_jump = mv_time_jumps(); judge_quiescence("stand-in timeout"); } G->blocked_s--; o->done = true; o->err = ETIMEDOUT; o->t1 = mv_now(); G->log += char('a' + me); G->log += "sb"; continue; }
+                G->blocked_s--;
+            } else
             if (c == 's') { G->blocked_s++; o->ok = G->ch->send(o->val); G->blocked_s--; }
             else if (c == 't') { mv_register_deadline(mv_now() + TMO); o->ok = G->ch->send(o->val, Timeout(TMO)); }
             else o->ok = G->ch->try_send(o->val);
         } else {
             int v = -7;
+            uint64_t forever = FOREVER + 10000ull * (G->nwaits++ % 50);
+            if (c == 'r' && G->gen) {
+                G->blocked_r++; o->ok = G->ch->recv(v, Timeout(forever));
+                if (!o->ok && errno == ETIMEDOUT && mv_now() >= o->t0 + forever) { if (G->judged_jump != mv_time_jumps()) { G->judged_jump = mv_time_jumps(); judge_quiescence("stand-in timeout"); } G->blocked_r--; o->done = true; o->err = ETIMEDOUT; o->t1 = mv_now(); G->log += char('a' + me); G->log += "rb"; continue; }
+                G->blocked_r--;
+            } else
             if (c == 'r') { G->blocked_r++; o->ok = G->ch->recv(v); G->blocked_r--; }
             else if (c == 'u') { mv_register_deadline(mv_now() + TMO); o->ok = G->ch->recv(v, Timeout(TMO)); }
             else o->ok = G->ch->try_recv(v);
@@ -90,18 +108,22 @@ static void finalize(bool deadlocked) {
 }
 
 // Everybody is blocked for good. Legitimate only if the channel state justifies each blocked thread.
-static void on_deadlock(const char* dump) {
+static void judge_quiescence(const char* dump) {
     St& s = *G;
     size_t buffered = s.ch->size();
     bool closed = s.ch->is_closed();
-    for (auto& p : s.prog.pts) if (!p.done) {
-        bool in_blocking = false; for (auto o : s.ops) if (o->th == p.idx && !o->done && (o->op == 's' || o->op == 'r')) in_blocking = true;
-        if (!in_blocking) pmc_violation("deadlock", "thread %d is stuck outside a blocking channel operation: %s", p.idx, dump);
-    }
     if (s.blocked_s > 0 && s.blocked_r > 0) pmc_violation("lost-wakeup", "a blocked sender and a blocked receiver coexist (cap %d, %zu buffered): %s", s.cap, buffered, dump);
     if (s.blocked_r > 0 && buffered > 0) pmc_violation("lost-wakeup", "%d receiver(s) blocked forever with %zu item(s) in the buffer: %s", s.blocked_r, buffered, dump);
     if (s.blocked_s > 0 && s.cap > 0 && buffered < (size_t)s.cap) pmc_violation("lost-wakeup", "%d sender(s) blocked forever with %zu of %d slots used: %s", s.blocked_s, buffered, s.cap, dump);
     if (closed && (s.blocked_s || s.blocked_r)) pmc_violation("lost-wakeup", "channel closed but %d sender(s) / %d receiver(s) still blocked: %s", s.blocked_s, s.blocked_r, dump);
+}
+static void on_deadlock(const char* dump) {
+    St& s = *G;
+    for (auto& p : s.prog.pts) if (!p.done) {
+        bool in_blocking = false; for (auto o : s.ops) if (o->th == p.idx && !o->done && (o->op == 's' || o->op == 'r')) in_blocking = true;
+        if (!in_blocking) pmc_violation("deadlock", "thread %d is stuck outside a blocking channel operation: %s", p.idx, dump);
+    }
+    judge_quiescence(dump);
     if (!s.blocked_s && !s.blocked_r) pmc_violation("deadlock", "nothing runnable: %s", dump);
     finalize(true);
     pmc_done();
@@ -109,7 +131,8 @@ static void on_deadlock(const char* dump) {
 
 void pmc_run(const char* config) {
     St st; G = &st; st.cap = config[0] - '0';
-    st.prog.parse(config + 2);
+    pmc_window(1);     // generated programs are explorer choices
+    if (st.prog.parse_or_generate(config + 2, {"s", "r", "t", "u", "x", "v", "c"})) { st.gen = true; st.log = st.prog.generated + " "; }
     pmc_window(0);
     mv_init(); mvp::use_fast_stacks(true);
     mv_on_deadlock = on_deadlock;
@@ -137,6 +160,11 @@ static const PmcConfig CFG[] = {
     {"1:t|u",           3, {1,2}, {1,1}, {0,0}, {0,0}, "timed ops, timeout landing anywhere"},
     {"0:t|u",           3, {1,2}, {1,1}, {0,0}, {0,0}, ""},
     {"1:x,s|v,r",       3, {1,2}, {0,0}, {0,0}, {0,0}, "try ops next to blocking ones"},
+    {"1:gen1|1x2",      3, {0,0}, {0,0}, {0,0}, {0,0}, "generated: 1+1 threads on two vCPUs, up to 2 ops each from {s,r,t,u,x,v,c}, every arrival order (default schedule)"},
+    {"0:gen1|1x2",      3, {0,0}, {0,0}, {0,0}, {0,0}, ""},
+    {"2:gen2|1x1",      3, {0,1}, {0,0}, {0,0}, {0,0}, "2+1 threads, one op each; thorough: + one preemption"},
+    {"1:gen2|1x2",      2, {0,0}, {0,0}, {0,0}, {0,0}, ""},
+    {"0:gen2|1x2",      2, {0,0}, {0,0}, {0,0}, {0,0}, ""},
     {"2:sss|r|r",       2, {1,2}, {0,0}, {0,0}, {0,0}, ""},
 };
 const PmcConfig* pmc_configs(int* n) { *n = sizeof CFG / sizeof CFG[0]; return CFG; }
